@@ -3,8 +3,8 @@
 import json, os
 HERE = os.path.dirname(os.path.dirname(os.path.abspath(__file__)))
 CHECKS = {
- "C19": ("Coq: on the functions REGENERATED from output.py — ghe_time_convert labels all 8760 hours correctly (lifted exhaustive sweep); hours_to_month equals the calendar conversion for EVERY rational hour count, is monotone, 1/672-Lipschitz and integral at month ends; exact Fraction correspondence with the real code",
-         "theorems are about exact rationals; the float code is compared on this run's points; CSV writers observed on real runs", "5 C19"),
+ "C19": ("Coq: on the functions REGENERATED from output.py — ghe_time_convert labels all 8760 hours correctly (lifted exhaustive sweep); hours_to_month equals the calendar conversion for EVERY rational hour count, is monotone, 1/672-Lipschitz and integral at month ends; the hourly-loads, bore-field and g-function row builders REGENERATED: for every input the rows echo the loads / coordinates / curve in order with their labels; exact Fraction correspondence with the real code",
+         "theorems are about exact rationals; the float code is compared on this run's points; the CSV files themselves (formatting, file names) observed on real runs", "5 C19"),
 }
 CHECKS.update({
  "C01": ("Coq: C01_feasible for every excess oracle / candidate list / cap / policy (search model + solve_root model, leaf expressions regenerated from the source), cost_spec on the regenerated BaseGHE.cost; exact correspondence of the model with the real Bisection1D/2D/ZD code on ~2.4k stub-oracle searches per run; re-simulation of real designs",
@@ -15,7 +15,7 @@ CHECKS.update({
          "distinct evaluated excess values assumed (C05_ties_refuted shows the lookup-by-value behaviour otherwise); ZD 'smallest count' only under monotone excess; call-site wiring regenerated (no design class overrides tol / max_iter); first-feasible checked through the real Design classes on 80-200 candidate lists", "5 C05"),
 })
 CHECKS.update({
- "C06": ("Coq: month-energy theorem for ALL rational monthly data (all peak-day orderings, pulses present or not, explicit degenerate-duration term), horizon theorem by induction over any number of months; the whole 230-line process_month_loads is translated to Gallina on every run and compared, with the hand model, against the real method segment by segment",
+ "C06": ("Coq: month-energy theorem for ALL rational monthly data (all peak-day orderings, pulses present or not, explicit degenerate-duration term), horizon theorem by induction over any number of months; split_heat_and_cool REGENERATED and proved pointwise for every profile, split_loads_by_month REGENERATED and validated on whole years; the whole 230-line process_month_loads is translated to Gallina on every run and compared, with the hand model, against the real method segment by segment",
          "theorems exclude the documented 1e-6 clamp of a negative pulse start; float rounding not modelled (exact Fraction stream + float stream with 1e-9 tolerance)", "5 C06"),
  "C07": ("Coq: retention window, pulse presence/sign/length/centre theorems, same-day abutment, no-pulse theorems on the month model; the two-day window of every peak day (day before + peak day, year wrapping) proved on process_two_day_loads REGENERATED from the source for every year of loads and every peak day; same correspondence; magnitudes, days, durations checked on real HybridLoad objects",
          "the value of a duration (Cullin & Spitler inverse through the short-time response) is recomputed from its definition by the check on real objects, not proved; durations > 48 h for sub-100 W peaks are a listed known finding", "5 C07"),
@@ -49,7 +49,7 @@ CHECKS.update({
 CHECKS.update({
  "C10": ("Coq: for every mesh size and coefficient set and ANY solution of the implicit step — heat conservation (telescoping induction), discrete minimum principle, monotonicity, and by induction over time steps a non-decreasing response that never falls below the initial state; geometric theorems (tiling, fluid thermal mass, layer resistances); the system handed to LAPACK is re-assembled in Coq and the returned vector checked as a certificate",
          "conductances (logarithms) are data; the 0.5 % fine-mesh clause is computed with an independent solver only", "5 C10"),
- "C11": ("Coq: joined axis strictly increasing / composition theorem on the reference description, radius-correction identity and additivity on the function REGENERATED from gfunction.py (ln abstract), h_eq identity; combine_sts_lts is translated on every run and compared with the real method; stored-height interpolation, real GHE g-functions, FLS anchor by computation",
+ "C11": ("Coq: joined axis strictly increasing / composition theorem on the reference description, radius-correction identity and additivity on the function REGENERATED from gfunction.py (ln abstract), h_eq identity; the decision prefix of g_function_interpolation (height snapping, extrapolation flag, kind tables) REGENERATED and proved: the kind handed to scipy never needs more curves than are stored, a stored height is interpolated and never extrapolated — compared with the real method through spies on interp1d/lagrange; combine_sts_lts is translated on every run and compared with the real method; stored-height interpolation, real GHE g-functions, FLS anchor by computation",
          "two laws of ln are premises; interp1d knot reproduction and the FLS/MIFT tolerances are computed only", "5 C11"),
  "C17": ("Coq: over the complete finite domain of 192 configuration shapes, the keys the tool writes (regenerated from to_input()/write_input_file) satisfy required/additionalProperties of its own schemas (regenerated from schemas/*.json) and are exactly what the CLI loader reads (regenerated); real write -> validate -> load -> write round trips compared byte for byte",
          "value-level validity (types, ranges, enums) and byte idempotence of deg<->rad are observed, not proved", "5 C17"),
